@@ -220,7 +220,8 @@ class RainfallClimateNetwork(ClimateNetwork):
 
         m = len(rainfall) * len(rainfall.T)
 
-        onelist = rainfall.reshape(m)
+        # (a copy: sorting a reshaped view would sort the caller's array)
+        onelist = rainfall.flatten()
 
         onelist = onelist[onelist.sort()][0]
 
